@@ -426,7 +426,24 @@ def g_scat_module(which, colour=False, rot=False, tiny=False):
         callees['dtcwt.coeffs:qshift'] = (lambda it, name: tuple(qs[kq] for kq in ('h0a', 'h0b', 'g0a', 'g0b', 'h1a', 'h1b', 'g1a', 'g1b')) +
                                           (tuple(qs[kq] for kq in ('h2a', 'h2b', 'g2a', 'g2b')) if name == 'qshift_b_bp' else ()))
         callees['dtcwt.lowlevel:prep_filt'] = CT.prep_filt_contract
+        applied = []
+
+        def spy(fname):
+            key = SL + ':' + fname + '.apply'
+
+            def cfn(it_, *args):
+                applied.append((fname, args))            # what the module hands to its autograd Function
+                saved = it_.contracts.pop(key)
+                try:
+                    return prims.function_apply(it_, RepoClass(SL, fname), args)
+                finally:
+                    it_.contracts[key] = saved
+            return key, cfn
+        for fname in ('ScatLayerj1_f', 'ScatLayerj1_rot_f', 'ScatLayerj2_f', 'ScatLayerj2_rot_f'):
+            k_, c_ = spy(fname)
+            callees[k_] = c_
         it = Interp(contracts=callees)
+        rec.applied = applied
         kw = dict(biort='near_sym_b_bp' if rot else 'near_sym_a', magbias=TV(bias), combine_colour=colour)
         if which == 2:
             kw['qshift'] = 'qshift_b_bp' if rot else 'qshift_a'
@@ -473,6 +490,21 @@ def g_scat_module(which, colour=False, rot=False, tiny=False):
                          for rr in ([idx[2] - top] + [z3.IntVal(t) for t in range(0, 4)] + [H - 1 - t for t in range(0, 4)])
                          for cc in ([idx[3] - left] + [z3.IntVal(t) for t in range(0, 4)] + [W - 1 - t for t in range(0, 4)])])
         obs.append(solve.prove(pid + '/extension/every added sample copies a border sample', 'POST', list(c.pc) + rng, copies, MV))
+        # (1b) the options handed to the autograd Function are the module's construction parameters, whatever the module's mode
+        #      (train / eval) or other state: apply(x, filters..., mode, magbias, combine_colour)
+        want_fn = ('ScatLayerj1' if which == 1 else 'ScatLayerj2') + ('_rot_f' if rot else '_f')
+        ap = getattr(rec, 'applied', [])
+        ok = len(ap) == 1 and ap[0][0] == want_fn
+        obs.append(Ob(pid + '/PRE[exactly one %s.apply]' % want_fn, 'PRE', 'proved' if ok else 'refuted', 'structural', 0,
+                      {} if ok else {'applied': [a[0] for a in ap], 'model': {}}))
+        if ok:
+            a_mode, a_bias, a_col = ap[0][1][-3:]
+            obs.append(prove_terms(pid + '/PRE[magbias handed down == magbias of the module]', 'PRE', list(c.pc), TV.of(a_bias), TV(bias)))
+            okc = (a_col is colour) or (a_col == colour and isinstance(a_col, bool))
+            obs.append(Ob(pid + '/PRE[combine_colour handed down == combine_colour of the module]', 'PRE', 'proved' if okc else 'refuted', 'structural', 0))
+            okm = (not isz(a_mode)) and a_mode == self.a.get('mode')
+            obs.append(Ob(pid + '/PRE[padding mode handed down == mode of the module]', 'PRE', 'proved' if okm else 'refuted', 'structural', 0,
+                          {} if okm else {'handed': str(a_mode), 'module': str(self.a.get('mode')), 'model': {}}))
         # (2) filters handed to the stages are the module's (prepared table entries)
         f = rec.calls[0][2]
         ok = all(isinstance(t, STensor) for t in f)
